@@ -529,7 +529,7 @@ pub fn h_mapo_merge(inp: &Inp) -> u8 {
     }
 }
 
-//@ harness props=C05,C08,C20 covers=3 name=Map<Orswot> L_apply(rm, equal context): a second key remove with the SAME context as an applied (possibly pending) remove but other keys acts like one remove of the union of the keys
+//@ harness props=C01,C03,C05,C08,C09,C20 covers=3 name=Map<Orswot> L_apply(rm, equal context): a second key remove with the SAME context as an applied (possibly pending) remove but other keys acts like one remove of the union of the keys
 #[no_mangle]
 pub fn h_mapo_apply_rm_same_ctx(inp: &Inp) -> u8 {
     let mut i = In::new(inp);
@@ -706,6 +706,38 @@ pub fn h_mapo_validate_merge(inp: &Inp) -> u8 {
     // misuse: a key-level double spent dot must be reported, in both directions
     if key_double_spent(&x, &y) && !(v1 && v2) {
         return 0;
+    }
+    // ... and so must a dot that witnesses different members under the same key (checked by the library when
+    // the two entry clocks are concurrent)
+    let mut key = 0u8;
+    while key < NK {
+        if let (Some((cx, sx_)), Some((cy, sy_))) = (acc::entry(&x, &key), acc::entry(&y, &key)) {
+            if cx.concurrent(cy) {
+                let mut ds = false;
+                let mut p = 0u8;
+                while p < NMM {
+                    let mut q = 0u8;
+                    while q < NMM {
+                        if p != q {
+                            let mut a = 0u8;
+                            while a < NA {
+                                let c = vget(&sx_.contains(&p).rm_clock, a);
+                                if c != 0 && c == vget(&sy_.contains(&q).rm_clock, a) {
+                                    ds = true;
+                                }
+                                a += 1;
+                            }
+                        }
+                        q += 1;
+                    }
+                    p += 1;
+                }
+                if ds && !(v1 && v2) {
+                    return 0;
+                }
+            }
+        }
+        key += 1;
     }
     if key_double_spent(&x, &y) {
         4
